@@ -1,5 +1,5 @@
 """C18 — quantum-jump stepping completes every time step once, in order (state-machine shape)."""
-from ..rules import jump, once
+from ..rules import noise, drivers, jump, once
 
 META = {
     "title": "Quantum-jump stepping completes every time step once, in order, and terminates",
@@ -24,3 +24,5 @@ def check(ctx):
     once.mps(ctx)
     ctx.floor("JUMP-path", 5)
     ctx.floor("JUMP-ownership", 9)
+    drivers.run_loops(ctx)
+    noise.mps_noise_plumbing(ctx)
